@@ -220,6 +220,9 @@ def run_job(job):
                 z = bytearray(L)
                 z[pos] = 1 << (pos % 8)
                 longs.append(bytes(z))
+        # around and beyond what a 16-bit length field could describe: the signing scheme has no length limit
+        for L in (65530, 65531, 65532, 65535, 65536, 65540, 131072, 1 << 20):
+            longs.append(bytes((i * 13 + L) & 0xFF for i in range(L)))
         for d in longs:
             _check_string(res, d.hex(), "long")
         for d in longs[:: max(1, len(longs) // 400)]:
@@ -253,7 +256,7 @@ def run_job(job):
             full = bytes(body) + R.signature(bytes(body))
             _check_string(res, full.hex(), "signed-frame-again")
             _check_string(res, (full + R.signature(full)).hex(), "signed-frame-twice")
-        res.sample({"input": "single-bit flips of the 10 reference frames; 00^L, ff^L, ramp for L=3..300,1023..4096"})
+        res.sample({"input": "single-bit flips of the 10 reference frames; 00^L, ff^L, ramp for L=3..300,1023..4096, 65530..65540, 128 KiB, 1 MiB"})
     elif part == "reject":
         bad_chars = list("gGzZxX -+.:_/\\\n\t\x00שé") + ["0x"]
         hexc = "09afAF"
